@@ -41,9 +41,11 @@ func TestC32(t *testing.T) {
 		return
 	}
 	// bounded-exhaustive part
-	stride := uint64(scale(128, 1))
+	stride := uint64(scale(256, 1))
 	seed := ev.Seed()
 	enumerate(t, c, "C32", profiles(), alphabet(), 2, func(idx uint64) bool { return mixSeed(idx^seed)%stride == 0 }, c32Nontrivial, false)
+	// error shapes x request kinds: every callback answering through wrapped / banner / multi errors
+	enumerate(t, c, "C32", shapeProfiles(), shapeAlphabet(), 2, func(idx uint64) bool { return mixSeed(idx^seed)%uint64(scale(64, 1)) == 0 }, c32Nontrivial, false)
 	// random part: random outcome tables, histories up to 12 requests over the full alphabet
 	rapid.Check(t, func(rt *rapid.T) {
 		spec := drawSpec(rt, []int{-1, -1, 0, 6})
